@@ -14,7 +14,7 @@ FWS = ["base", "pydantic", "sqlmodel", "attrs", "dataclasses"]
 POOL = [f"s{i:02d}" for i in range(18)]
 LEN_CLASSES = {"short": None, "len19": "y" * 19, "len20": "y" * 20, "len21": "y" * 21, "len0": "", "blank": " "}
 CO = ["none", "null", "absent", "pseudo_int", "pseudo_mix"]
-ESC_SYMBOLS = ['"', "'", "\\", "\n", ",", "é", "a", "\U0001F600", "\u2028", "\x85"]
+ESC_SYMBOLS = ['"', "'", "\\", "\n", ",", "é", "a", "A", "\U0001F600", "\u2028", "\x85"]
 
 
 def _cases(tier):
